@@ -20,6 +20,10 @@ NO_MB = {"VERIF_MB_KEYS": "0"}
 
 # suites: (name, cases quick, cases thorough[, extra environment])
 PROPS = {
+    "C01": {
+        "suites": [("conv", 60, 600), ("proc", 100, 1000), ("delta", 30, 200)],
+        "title": "handshake progress (first stale member gets a non-empty node delta when header + one operation fit; the initiator applies it and its frontier strictly advances, nothing moves back), deliverable iff ahead, frontiers bounded by the owner's max version; fair-round convergence exercised by the conv suite (partial: the round-based composition is not mechanised)",
+    },
     "C02": {
         "suites": [("kf1", 12, 60), ("proc", 300, 3000), ("apply", 100, 1000), ("kv", 60, 400)],
         "title": "in every state reachable without a weak acceptance (known finding KF-1), every copy and every message in flight is exact up to its frontier w.r.t. the owner's write ledger; with weak acceptances allowed the statement is refuted by a reachable 3-node history (vm_compute witness)",
